@@ -445,9 +445,19 @@ def load_corpus(pid):
     return [l.strip() for l in open(p) if l.strip() and not l.startswith("#")]
 
 
-def gen_cases(pid, seed, tier):
+def gen_cases(pid, seed, tier, escalate=False):
+    """escalate: the source the model was written from has changed (tools/fingerprint.py): explore four times
+    the usual number of cases plus a second stream from another seed"""
+    if escalate:
+        a = gen_cases_one(pid, seed, tier, 4)
+        b = gen_cases_one(pid, seed + 7919, tier, 2)
+        return list(dict.fromkeys(a + b))
+    return gen_cases_one(pid, seed, tier, 1)
+
+
+def gen_cases_one(pid, seed, tier, mult):
     cfg = PROPS[pid]
-    n = cfg[tier]
+    n = cfg[tier] * mult
     rng = random.Random(seed * 1000003 + int(hashlib.sha1(pid.encode()).hexdigest()[:6], 16))
     lines = []
     aux = [g for g in cfg["gens"] if g == "K"]
@@ -509,6 +519,7 @@ def main():
     lines = []
     rows = []
     impl = []
+    src_changed = []
     n_corr_fail = n_acc_fail = 0
     first_corr = None
     if okd and okh:
@@ -516,7 +527,11 @@ def main():
             info = json.load(open(replay))
             lines = [info["line"]] if "line" in info else []
         else:
-            lines = load_corpus(pid) + gen_cases(pid, seed, tier)
+            import fingerprint
+            src_changed = fingerprint.changed_for(pid)
+            if src_changed and tier == "quick":
+                log("[%s] source changed since the model was written (%s): extended exploration" % (pid, ", ".join(src_changed)))
+            lines = load_corpus(pid) + gen_cases(pid, seed, tier, escalate=bool(src_changed) and tier == "quick")
         configs = ["dev"]
         if lines:
             if pid == "C18":
@@ -581,6 +596,7 @@ def main():
             trusted_base=TRUSTED_BASE,
             theorems=proof["theorems"], proof_ok=proof["ok"], proof_failed_at=proof["failed"],
             coqchk=proof.get("coqchk", "not run in the quick tier"),
+            source_files_changed_since_model=(src_changed if (okd and okh and not replay) else None),
             constants=proof.get("consts"),
             evaluations=len(lines), distinct_nontrivial=nt,
             rule="corpus + deterministic atlas (boundary/tie constructions) + seeded structured mixture (tools/gen.py); "
